@@ -354,11 +354,23 @@ macro_rules! c18_roots_first_step {
             #[cfg(not(kani))]
             {
                 let _j: usize = $crate::nd::nd();
-                let w = <$UW as bnum::cast::CastFrom<$U>>::cast_from(u);
-                let rw = <$UW as bnum::cast::CastFrom<$U>>::cast_from(<$U as BN<$D, $N>>::mk(r));
-                let lo_ok = match rw.checked_pow(n) { Some(p) => p <= w, None => false };
-                let hi_ok = match (rw + <$UW>::ONE).checked_pow(n) { Some(p) => p > w, None => true };
-                assert!(lo_ok && hi_ok, "r^n <= x < (r+1)^n");
+                // The solver's counterexample is a deviation of an INTERMEDIATE value (guess / first step); it is confirmed natively only through the
+                // observable contract r^n <= x < (r+1)^n, on the counterexample value and on a few values of the same shape (same top digit and degree).
+                let mut cands: [[$D; $N]; 5] = [ud; 5];
+                let mut k = 0;
+                while k + 1 < $N { cands[1][k] = 0; cands[2][k] = <$D>::MAX; cands[3][k] = if k % 2 == 0 { <$D>::MAX } else { 0 }; cands[4][k] = 1; k += 1; }
+                for cd in cands.iter() {
+                    let x = <$U as BN<$D, $N>>::mk(*cd);
+                    let w = <$UW as bnum::cast::CastFrom<$U>>::cast_from(x);
+                    // the degree of the counterexample and the neighbouring degrees (a wrong first step shows in the result only for some degrees)
+                    for n2 in core::iter::once(n).chain(4u32..=64) {
+                        let rr = Roots::nth_root(&x, n2);
+                        let rw = <$UW as bnum::cast::CastFrom<$U>>::cast_from(rr);
+                        let lo_ok = match rw.checked_pow(n2) { Some(p) => p <= w, None => false };
+                        let hi_ok = match (rw + <$UW>::ONE).checked_pow(n2) { Some(p) => p > w, None => true };
+                        assert!(lo_ok && hi_ok, "r^n <= x < (r+1)^n (degree {})", n2);
+                    }
+                }
             }
         });
     };
